@@ -136,7 +136,7 @@ func c20Apply(m map[string]*c20MSvc, c c20Cmd) (fail bool) {
 	return false
 }
 
-var c20Names = []string{"web", "api", "admin"}
+var c20Names = []string{"web", "api", "admin", "café-crème-brûlée-backend"}
 
 func c20BinGen(t *rapid.T) c20BinPlan {
 	p := c20BinPlan{}
